@@ -1,4 +1,4 @@
-CONSTANT Thorough = FALSE
+CONSTANT Thorough = TRUE
 INIT Init
 NEXT Next
 INVARIANTS RoundTrip
